@@ -34,9 +34,9 @@ def sciOf (c : Cfg) (n : Number) : Int := scientificExponent c.mantissaRadix n.m
 
 /-- the inputs on which the slow-path model is proved: a build/radix with a digit limit `d`; validated, separator-free
 digit bytes with a significant digit; a `Number` whose `mantissa`/`exponent` words put the leading digit where the
-digits and the explicit exponent put it (`value`); at most `d` significant digits or only zeros beyond; the capacity
+digits and the explicit exponent put it (`value`); the capacity
 guard of `positive_digit_comp`; for a negative exponent a normalised estimate above the underflow cut with a finite
-round-down, and the capacity guard of `negative_digit_comp`. (`fp` is the **un-biased** estimate.) -/
+round-down — or one to `+∞` — and the matching capacity guard of `negative_digit_comp` (`NegFit`). (`fp` is the **un-biased** estimate.) -/
 structure SlowDomain (c : Cfg) (F : FTy) (p : Nat) (n : Number) (fp : ExtendedFloat80) (d : Nat) : Prop where
   env : EnvRadix (envOf c.feats) c.mantissaRadix
   maxd : (envOf c.feats).S.maxDigits F.fmt c.mantissaRadix = some d
@@ -48,23 +48,20 @@ structure SlowDomain (c : Cfg) (F : FTy) (p : Nat) (n : Number) (fp : ExtendedFl
   sciHi : sciOf c n < 2 ^ 27
   value : RatEq (litFrac c.mantissaRadix c.exponentBase (numberLit c n))
     (sigValue c.mantissaRadix (sigBytes n.integer n.fraction) (sciOf c n))
-  few : (sigBytes n.integer n.fraction).length ≤ d ∨
-    anyNonzero ((sigBytes n.integer n.fraction).drop d) = false
   posGuard : 0 ≤ digitExponent (sciOf c n) (mantissaOf c.mantissaRadix d (sigBytes n.integer n.fraction)).2 →
     (mantissaOf c.mantissaRadix d (sigBytes n.integer n.fraction)).1 *
       c.mantissaRadix ^ (digitExponent (sciOf c n) (mantissaOf c.mantissaRadix d (sigBytes n.integer n.fraction)).2).toNat <
       2 ^ (64 * (envOf c.feats).L.bigintLimbs)
   negSide : digitExponent (sciOf c n) (mantissaOf c.mantissaRadix d (sigBytes n.integer n.fraction)).2 < 0 →
-    2 ^ 63 ≤ fp.mant ∧ fp.mant < 2 ^ 64 ∧ -fp.exp + 1 ≤ 64 ∧ fp.exp < 2 ^ 20 ∧
-    C01Slow.roundedDown F fp < F.fmt.infBits ∧
-    NegGuard (envOf c.feats) F p c.mantissaRadix (mantissaOf c.mantissaRadix d (sigBytes n.integer n.fraction)).1 fp
+    2 ^ 63 ≤ fp.mant ∧ fp.mant < 2 ^ 64 ∧ fp.exp < 2 ^ 20 ∧
+    NegFit (envOf c.feats) F p c.mantissaRadix (mantissaOf c.mantissaRadix d (sigBytes n.integer n.fraction)).1 fp
       (digitExponent (sciOf c n) (mantissaOf c.mantissaRadix d (sigBytes n.integer n.fraction)).2)
 
 theorem isFloat_of {F : FTy} (hF : IsLemireFloat F) : IsFloat F := hF
 
 /-- the value the slow path rounds, `M·radix^e`, rounds like the digit content of the `Number` -/
-theorem roundNE_value {c : Cfg} {F : FTy} {p eb : Nat} (lay : Layout F p eb) {n : Number} {fp : ExtendedFloat80} {d : Nat}
-    (D : SlowDomain c F p n fp d) (hb : 0 < c.exponentBase) :
+theorem roundNE_value {c : Cfg} {F : FTy} (hF : IsFloat F) {p eb : Nat} (lay : Layout F p eb) {n : Number}
+    {fp : ExtendedFloat80} {d : Nat} (D : SlowDomain c F p n fp d) (hb : 0 < c.exponentBase) :
     roundNE F.fmt
         (powFrac c.mantissaRadix (digitExponent (sciOf c n) (mantissaOf c.mantissaRadix d (sigBytes n.integer n.fraction)).2)
           (mantissaOf c.mantissaRadix d (sigBytes n.integer n.fraction)).1).1
@@ -80,11 +77,21 @@ theorem roundNE_value {c : Cfg} {F : FTy} {p eb : Nat} (lay : Layout F p eb) {n 
         (sigValue c.mantissaRadix (sigBytes n.integer n.fraction) (sciOf c n)).2 :=
     roundNE_congr' lay.wf (litFrac_den_pos hrp hb _) (powFrac_den_pos hrp _ _) D.value
   rw [h1]
-  rcases D.few with hfew | hz
+  by_cases hfew : (sigBytes n.integer n.fraction).length ≤ d
   · rw [value_untruncated _ _ _ _ hfew]
-  · by_cases hfew : (sigBytes n.integer n.fraction).length ≤ d
-    · rw [value_untruncated _ _ _ _ hfew]
-    · exact value_zero_tail lay.wf hrp d _ _ (by omega) hz
+  · by_cases hz : anyNonzero ((sigBytes n.integer n.fraction).drop d) = true
+    · have hvs : ValidDigits c.mantissaRadix (sigBytes n.integer n.fraction) := by
+        unfold sigBytes
+        cases hfr : n.fraction with
+        | none => exact valid_skipZeros D.validInt
+        | some fr =>
+          simp only
+          split
+          · exact valid_skipZeros (D.validFrac fr hfr)
+          · exact valid_append (valid_skipZeros D.validInt) (D.validFrac fr hfr)
+      exact truncation_invariant_proved _ _ D.env F hF d D.maxd _ _ hvs D.bytes
+        (fun c cs hcs => sigBytes_head hcs) (by omega) hz
+    · exact value_zero_tail lay.wf hrp d _ _ (by omega) (by simpa using hz)
 
 /-- **the obligation `hslow` of `numberToFloat_of_contracts`, for the slow-path model**: with the pipeline's (weak)
 `Bracket` on the biased estimate and `SlowDomain` for the un-biased one, `slowModel` returns the float nearest to the
@@ -97,13 +104,13 @@ theorem slowModel_hslow {c : Cfg} {F : FTy} (hF : IsLemireFloat F) {p eb : Nat} 
     extendedToFloat F (slowModel c F n { fp with exp := fp.exp - invalidFp }) =
       roundNE F.fmt (litFrac c.mantissaRadix c.exponentBase (numberLit c n)).1
         (litFrac c.mantissaRadix c.exponentBase (numberLit c n)).2 := by
-  have hv := roundNE_value lay D hb
+  have hv := roundNE_value (isFloat_of hF) lay D hb
   obtain ⟨res, e1, _, e3⟩ := slow_radix_correct D.env lay (isFloat_of hF) hden c.feats.radix D.maxd
     ⟨n.mantissa, n.exponent, n.integer, n.fraction⟩ { fp with exp := fp.exp - invalidFp }
     D.validInt D.validFrac D.nonempty D.bytes D.sciLo D.sciHi D.posGuard (by
       intro hneg
-      obtain ⟨a1, a2, a3, a4, a5, a6⟩ := D.negSide hneg
-      refine ⟨a1, a2, a3, a4, a5, ?_, a6⟩
+      obtain ⟨a1, a2, a4, a6⟩ := D.negSide hneg
+      refine ⟨a1, a2, a4, ?_, a6⟩
       -- the pipeline's bracket is the weak bracket of the value the slow path rounds
       unfold WeakBracket
       have hpf : ∀ (e : Int) (M : Nat), e < 0 →
